@@ -91,12 +91,29 @@ func hasBackend(backends []string, backend string) bool {
 
 // Changed ...
 func (f *Frontend) Changed() bool {
-	return f.changed
+	if !f.changed {
+		return false
+	}
+	// a partial sync releases the auth proxies of the backends it rebuilds and
+	// acquires them again: the same binds after all that is not a change
+	if len(f.AuthProxy.BindList) != len(f.bindListCommitted) {
+		return true
+	}
+	for i, bind := range f.AuthProxy.BindList {
+		if *bind != f.bindListCommitted[i] {
+			return true
+		}
+	}
+	return false
 }
 
 // Commit ...
 func (f *Frontend) Commit() {
 	f.changed = false
+	f.bindListCommitted = make([]AuthProxyBind, len(f.AuthProxy.BindList))
+	for i, bind := range f.AuthProxy.BindList {
+		f.bindListCommitted[i] = *bind
+	}
 }
 
 // String ...
